@@ -21,6 +21,7 @@ import SqlLineage.Model.Stmt
 import SqlLineage.Model.Assemble
 import SqlLineage.Spec.Tables
 import SqlLineage.Proofs.GraphLemmas
+import SqlLineage.Proofs.FrameLemmas
 
 set_option linter.unusedSimpArgs false
 set_option linter.unusedVariables false
@@ -2252,12 +2253,10 @@ theorem compose_rw (g h : LGraph) (hh : Inv h) (d : DS) (hd : d.isDataset = true
       · exact absurd hx h2
       · simp
 
-/-- the holder `CreateInsertExtractor` starts from: the target table (and its columns) -/
+/-- the holder `CreateInsertExtractor` starts from: the target table (and its columns; with the D8 repair an explicit
+    column list replaces the columns taken from the provider) -/
 def wq0 (env : Env) (isInsert : Bool) (tgt : List String) (cols : Option (List String)) : LGraph :=
-  let t := mkTable env tgt none
-  let g := addWriteO Graph.empty t
-  let g := if isInsert && env.prov.truthy then addWriteColumns g (provColumns env.prov t.d t.printed) else g
-  match cols with | some cs => addWriteColumns g (cs.map listColumn) | none => g
+  writeTargetHolder env isInsert tgt cols
 
 theorem exWriteQuery_eq (env : Env) (isInsert : Bool) (tgt : List String) (cols : Option (List String)) (q : Query) :
     exWriteQuery env isInsert tgt cols q =
@@ -2268,19 +2267,15 @@ theorem exWriteQuery_eq (env : Env) (isInsert : Bool) (tgt : List String) (cols 
 theorem tag_wq0 (env : Env) (isInsert : Bool) (tgt : List String) (cols : Option (List String)) (d : DS) (t : Tag) :
     (wq0 env isInsert tgt cols).tag (.ds d) t = if d = (mkTable env tgt none).d ∧ t = .write then some true else none := by
   have key : SameDs (addWriteO Graph.empty (mkTable env tgt none)) (wq0 env isInsert tgt cols) := by
-    unfold wq0
-    simp only
-    cases cols with
-    | none =>
-      simp only
-      split
-      · exact sameDs_addWriteColumns _ _
-      · exact SameDs.refl _
-    | some cs =>
-      simp only
-      split
-      · exact (sameDs_addWriteColumns _ _).trans (sameDs_addWriteColumns _ _)
-      · exact sameDs_addWriteColumns _ _
+    have F := TargetFrame.target_frame (addWriteO Graph.empty (mkTable env tgt none))
+      (by simp [addWriteO, addWrite, Graph.setTag, Graph.addNode, Graph.empty])
+      (isInsert && env.prov.truthy)
+      (provColumns env.prov (mkTable env tgt none).d (mkTable env tgt none).printed)
+      (fun cs : List String => cs.map listColumn) cols
+    refine ⟨fun d t => ?_⟩
+    have h := F.tags (.ds d) t rfl
+    unfold wq0 writeTargetHolder removeWriteColumns
+    cases cols <;> exact h
   rw [key.eq, tag_addWriteO, tag_empty]
   simp only [Node.ds.injEq]
 
